@@ -265,11 +265,27 @@ class PanicRule:
             return False, "table predicate %s no longer holds: %s" % (e["predicate"], why)
         if s.cls == "chrono-local-range" and self.parsed_timestamps_only:
             return True, "D-domain:timestamps reaching this site were built by the decoders (years 0000-9999)"
+        # predicates that establish the safety of a site from the site's own operands alone (no global invariant, no knowledge of
+        # which function it is in), with the site class they speak about
+        self._pred_names = {"regex_literal_valid": ("unwrap",), "find_plus_one": ("Overflow",), "slice_from_find_plus_one": ("str-index",)}
         for rule in (self.auto_const_bounds, self.auto_const_divisor, self.auto_index_guarded, self.auto_sep_in_iteration,
                      self.auto_counter, self.auto_add_under_bound, self.auto_captures_get0, self.auto_fmt, self.auto_buf_size):
             r = rule(s)
             if r:
                 return True, r
+        # the table names the sites that were reviewed; when code moves (a helper is extracted, a closure is renumbered) the key
+        # changes but the argument does not: every table predicate validates its own applicability from the site, so it may
+        # discharge a site of the same shape under a new key
+        for pn, classes in sorted(self._pred_names.items()):
+            pred = getattr(self, "pred_" + pn, None)
+            if pred is None or s.cls not in classes:
+                continue
+            try:
+                ok, why = pred(s, {})
+            except Exception:
+                continue
+            if ok:
+                return True, "pattern:%s (%s; site not in the reviewed table under this key)" % (pn, why)
         return False, ""
 
     # ------------------------------------------------------------------ automatic rules
